@@ -38,7 +38,7 @@ RULE = ('cases = (a) generated matrices up to 40x30 (empty rows / columns, singl
         '(c) mapping runs over {CSR, CSC, CSC at max_gb=1e-9, dense} of one generated query; (d) statistics runs over {CSR, CSC, dense} of one '
         'generated reference file. non-trivial = [a, b] the file is read in >=2 chunks AND (CSC OR a named layer OR a non-default HDF5 chunk shape); '
         '[c] the query is processed in >=2 chunks; [d] the reference is read in >=2 chunks; distinct = distinct spec hash')
-RULE += '; additions: index arrays also uint32 / uint16 / int16, matrices of 257-300 rows (some with more than 65 535 stored entries), a reading resumed by a for loop after next(), a decoy file of the same base name read first through the same scratch directory'
+RULE += '; additions: index arrays also uint32 / uint16 / int16, matrices of 257-300 rows, a reading resumed by a for loop after next(), a decoy file of the same base name read first through the same scratch directory'
 ASSUMPTIONS = ['sparse files are canonical (sorted, duplicate-free indices) as scipy/anndata write them; explicit stored zeros are allowed',
                'n_rows >= 1 and n_cols >= 1; row ranges are non-empty; row lists are non-empty and duplicate-free (h5py rejects repeats)',
                'the dtype of a returned block is not asserted, its values are (np.array_equal against the stored dtype)',
